@@ -2,6 +2,7 @@ package klevdb
 
 import (
 	"context"
+	"fmt"
 
 	"github.com/klev-dev/klevdb/pkg/notify"
 )
@@ -23,7 +24,15 @@ func OpenTBlocking[K any, V any](dir string, opts Options, keyCodec Codec[K], va
 	if err != nil {
 		return nil, err
 	}
-	return WrapTBlocking(l)
+	bl, err := WrapTBlocking(l)
+	if err != nil {
+		// do not leave the log (and its directory lock) open behind a failed open
+		if cerr := l.Close(); cerr != nil {
+			return nil, fmt.Errorf("%w: open blocking close: %w", err, cerr)
+		}
+		return nil, err
+	}
+	return bl, nil
 }
 
 // WrapTBlocking wraps a [TLog] with support for blocking consume
